@@ -41,6 +41,45 @@ def check(repo, res, tier):
     p3(repo, res, canon, us)
     check_coupling(repo, res, 'C02.P4', canon)
     prov_counter(repo, res, canon, us)
+    p5(repo, res)
+    from . import c09
+    from .common import borrow
+    res.rule('C02.P6', 'adopted C09.R4: a machine finishing work for a reserved observation returns to that reservation '
+                       '(else the reservation outlives the run: "no reservation outstanding at the end")')
+    borrow(repo, res, tier, c09, {'C09.R4'}, 'C02.P6')
+
+
+# ------------------------------------------------------------------------ P5
+def p5(repo, res):
+    """Bulk operations (a loop of moves inside one call) cannot be refused half-way only if every
+    machine they move is known to be where the move takes it from.  The loop path model (a loop is
+    followed at most once) cannot see a refusal in iteration k after the effects of iteration 1..k-1,
+    so this is decided from the provenance of the machines: the machines a reservation is made of
+    are elements of the available pool."""
+    from ..norm import ProvCanon
+    res.rule('C02.P5', 'provision_batch_resources reserves only machines taken from the available pool '
+                       '(so _add_idle_resource cannot refuse after earlier machines have moved)')
+    pc = ProvCanon(repo)
+    avail = [k for k, v in CU.POOLS.items() if v == 'available'][0]
+    n = 0
+    for f in repo.cls('Cluster').methods.values():
+        fr = Frame(f)
+        for c in walk_no_nested(f.node):
+            if isinstance(c, ast.Call) and isinstance(c.func, ast.Attribute) and c.func.attr == '_add_idle_resource' \
+                    and len(c.args) >= 2:
+                n += 1
+                P = pc.p(c.args[1], fr)
+                ok = P.startswith(avail + '[') or P in ('elem(%s)' % avail,) or P.startswith('elem(%s[' % avail)
+                what = '%s reserves %s' % (f.qual, short(P, 80))
+                if ok:
+                    res.ok('C02.P5', f, c, what, 'an element of the available pool')
+                else:
+                    res.bad('C02.P5', f, c, what,
+                            'the machines set aside for a reservation are %s, not elements of the available pool: a '
+                            'machine that is reserved for another observation (or busy) makes _add_idle_resource raise '
+                            'after earlier machines have already moved -- the refused call leaves the pools changed' % short(P, 120))
+    if not n:
+        raise AnalysisError('no call of _add_idle_resource found (C02.P5 anchor moved)')
 
 
 # ------------------------------------------------------------------------ P1
